@@ -503,7 +503,7 @@ def replay(rep: Report, path: str) -> int:
             params = dict(omega=om, delta=de, phi=ph, U=U, state=st)
 
             def f():
-                psi = st
+                psi = st.clone()                 # krylov_exp normalises the tensor it is given in place (see evolve_case)
                 for t in range(steps):
                     psi, _ = EvolveStateVector.apply(0.2, om[t], de[t], ph[t], U, psi, 1e-12, None)
                 return (psi.abs() ** 2 * torch.arange(2 ** n, dtype=torch.float64)).sum()
